@@ -116,6 +116,7 @@ type Entity struct {
 	Preamble []byte
 	Epilogue []byte
 	Problems []string
+	Raw      []byte // the entity as it was found (header section and body)
 }
 
 // Get returns the first field with the given name (case-insensitive) and how often it occurs.
@@ -259,7 +260,7 @@ func ParseParams(v string) Param {
 
 // Parse parses a complete message or body part (header section + body), recursively.
 func Parse(b []byte) *Entity {
-	e := &Entity{}
+	e := &Entity{Raw: b}
 	var body []byte
 	e.Fields, body, e.Problems = parseHeader(b)
 	e.Body = body
